@@ -365,6 +365,10 @@ func (session *ServerCommandSession) feedSdp(rawSdp []byte) error {
 func (session *ServerCommandSession) handleAuthorized(requestCtx nazahttp.HttpReqMsgCtx) (string, error) {
 	if requestCtx.Headers.Get(HeaderAuthorization) != "" {
 		authorization := requestCtx.Headers.Get(HeaderAuthorization)
+		// every request is judged by the credentials it carries itself: fields left over from an earlier request on this
+		// connection (ParseAuthorization leaves them untouched for a scheme it does not know or a header it cannot
+		// decode) must not authenticate this one
+		session.auth = Auth{}
 		session.auth.ParseAuthorization(authorization)
 
 		// 解析出的鉴权方式需要与配置的鉴权方式一致,防止鉴权降级
